@@ -1133,7 +1133,30 @@ fn builtin_sort(args: Vec<Rc<Object>>) -> Result<Rc<Object>, String> {
             if !comparable {
                 return Err(String::from("array elements are not mutually comparable"));
             }
-            arr.elements.borrow_mut().sort();
+            // Integers and floats are ordered by their exact values: comparing a
+            // mixed pair as doubles is not transitive above 2^53, and the standard
+            // sort panics on a comparison that is not a total order
+            fn exact_cmp(i: i64, f: f64) -> std::cmp::Ordering {
+                use std::cmp::Ordering::*;
+                if f >= 9223372036854775808.0 {
+                    Less
+                } else if f < -9223372036854775808.0 {
+                    Greater
+                } else {
+                    match i.cmp(&(f.trunc() as i64)) {
+                        Equal if f.fract() > 0.0 => Less,
+                        Equal if f.fract() < 0.0 => Greater,
+                        o => o,
+                    }
+                }
+            }
+            arr.elements
+                .borrow_mut()
+                .sort_by(|a, b| match (a.as_ref(), b.as_ref()) {
+                    (Object::Integer(i), Object::Float(f)) => exact_cmp(*i, *f),
+                    (Object::Float(f), Object::Integer(i)) => exact_cmp(*i, *f).reverse(),
+                    _ => a.cmp(b),
+                });
             Ok(Rc::clone(&args[0]))
         }
         _ => Err(String::from("argument should be an array")),
